@@ -39,21 +39,27 @@ def run(ctx):
                               "realised acceptance statistic %.3f after warm-up is far from the requested %.2f" % (mean, c["delta"]),
                               {"direction": "trace", "chain": c})
     # validate chain by chain so that each failing chain is reported
-    starts = [i for i, e in enumerate(evs) if e["e"] == "chain"] + [next((i for i, e in enumerate(evs) if e["e"] == "heur"), len(evs))]
+    starts = [i for i, e in enumerate(evs) if e["e"] == "chain"] + [next((i for i, e in enumerate(evs) if e["e"] in ("heur", "multi")), len(evs))]
+    multi = [e for e in evs if e["e"] == "multi"]
+    ctx.cov["multi_chain_start_values"] = {"chains": len(multi), "differ_from_chain0": sum(1 for e in multi if e["differs_from_chain0"])}
+    if multi and not any(e["differs_from_chain0"] for e in multi):
+        raise vlib.ToolError("multi-chain cases are vacuous: every chain has chain 0's start value")
     ok, matched, run_ = ctx.validate_trace("Trace_DualAvg", tp, timeout=3000)
     if ok:
-        ctx.cov["traces_validated_against_impl"] += len(starts) - 1 + sum(1 for e in evs if e["e"] == "heur")
+        ctx.cov["traces_validated_against_impl"] += len(starts) - 1 + sum(1 for e in evs if e["e"] in ("heur", "multi"))
     else:
         pos = matched
         while pos is not None and pos < len(evs):
             bad = evs[pos]
             label = next((evs[s]["label"] for s in reversed(starts[:-1]) if s <= pos), "heuristic")
+            if bad["e"] == "multi":
+                label = "multi-chain %s chain %s of %s nd=%s progress=%s" % (bad["set"], bad["chain"], bad["chains"], bad["nd"], bad["progress"])
             ctx.violation("dualavg-trace %s" % (label if bad["e"] != "heur" else "heuristic k=%s x0=%s p0=%s" % (bad.get("k"), bad.get("x0"), bad.get("p0"))),
                           "adaptation event is not a step of DualAvg.tla (%s): %s; previous: %s" % (run_.violated or "no action matches", json.dumps(bad)[:300], json.dumps(evs[pos - 1])[:200]),
                           {"direction": "trace", "spec": "Trace_DualAvg", "event": bad, "trace": lines[max(0, pos - 200):pos + 1]})
             # continue after this chain
             nxt = next((s for s in starts if s > pos), None)
-            if bad["e"] == "heur":
+            if bad["e"] in ("heur", "multi"):
                 nxt = pos + 1 if pos + 1 < len(evs) else None
             if nxt is None or nxt >= len(evs):
                 break
@@ -71,7 +77,7 @@ def run(ctx):
     ctx.selftest("trace: step size changed after warm-up", not okc)
     ctx.cov["rule"] = ("MC_DualAvg: phase machine over 3 run() calls (adapt exactly while m <= n_discard, frozen afterwards, counter persists); traces: "
                        "warm-up lengths 0,1,3,50,300 (500, 2000 thorough), requested acceptance 0.55..0.95, repeated run() calls, Gaussian/Rosenbrock/"
-                       "half-line targets, f32 and f64, plus the start-up heuristic through its wrapper; non-trivial = adapting transitions")
+                       "half-line targets, f32 and f64, plus the start-up heuristic through its wrapper and the per-chain start value / shrinkage point of 4- and 5-chain NUTS samplers (run and run_progress); non-trivial = adapting transitions")
     ctx.cov["exhaustive"] = False
 
 
